@@ -78,10 +78,14 @@ def run_real(ops):
         s.add_callback(t, cb)
 
     obs = []
+    hz = 0.0                    # the largest target an accepted evolve_until was given
+    adds_after_horizon = True   # every add_callback from outside was for a time >= hz at that moment
     for op in ops:
         if op[0] == 'kids':
             kids[op[1]] = [(float(d), int(c)) for d, c in op[2]]
         elif op[0] == 'add':
+            if float(op[1]) < hz:
+                adds_after_horizon = False
             add(float(op[1]), int(op[2]))
         elif op[0] == 'evolve':
             s.events = []
@@ -96,10 +100,31 @@ def run_real(ops):
                 status = 'index'
             except Exception as e:  # noqa
                 status = 'other:' + type(e).__name__
+            if status != 'value':
+                hz = max(hz, float(op[1]))
             queue = sorted((q[0], q[1]) for q in s.callbacks)
             obs.append({'T': float(op[1]), 'status': status, 't0': t0, 't1': s.t, 'ctr': s.callback_counter,
-                        'events': list(s.events), 'queue': queue, 'scheduled': list(scheduled), 'n_sched0': n_sched0})
+                        'events': list(s.events), 'queue': queue, 'scheduled': list(scheduled), 'n_sched0': n_sched0,
+                        'hz': hz, 'adds_after_horizon': adds_after_horizon})
     return obs
+
+
+def real_hist_line(obs, ops):
+    """The whole-history summary the model prints for `C20 hist` (Lean: `Hist` after `runOps`)."""
+    fires = [e for o in obs for e in o['events'] if e[0] == 'F']
+    keys = [(e[1], e[2]) for e in fires]
+    last = obs[-1]
+    # adds after the last evolve are created and pending too
+    nadd_after = 0
+    for op in reversed(ops):
+        if op[0] == 'evolve':
+            break
+        if op[0] == 'add':
+            nadd_after += 1
+    return 'hz=%s t=%s created=%d fired=%d pending=%d sorted=%s run=%s' % (
+        rat(last['hz']), rat(last['t1']), last['ctr'] + nadd_after, len(fires), len(last['queue']) + nadd_after,
+        'true' if all(a < b for a, b in zip(keys, keys[1:])) else 'false',
+        ';'.join('%s:%d:%d' % (rat(e[1]), e[2], e[3]) for e in fires))
 
 
 def real_line(o):
@@ -127,6 +152,7 @@ def model_lines(ops):
         else:
             idx.append(len(lines))
             lines.append('C20 evolve %s %d new' % (rat(op[1]), FUEL))
+    lines.append('C20 hist')
     return lines, idx
 
 
@@ -185,6 +211,12 @@ def oracle(obs):
             bad.append(('clock-end', 'clock ended at %r for target %r' % (o['t1'], T)))
         if any(t < T for (t, c) in o['queue']):
             bad.append(('exactly-once', 'a callback due before T is still queued'))
+    # history level (Lean: history_inv): when no add_callback was for a time before the largest target
+    # already evolved to, the callbacks run in (time, insertion) order ACROSS evolve_until calls as well
+    if obs and obs[-1]['adds_after_horizon']:
+        allkeys = [(e[1], e[2]) for o in obs if o['status'] == 'ok' for e in o['events'] if e[0] == 'F']
+        if any(not (a < b) for a, b in zip(allkeys, allkeys[1:])):
+            bad.append(('order-across-evolves', 'callbacks of successive evolve_until calls did not run in (time, insertion) order'))
     return bad
 
 
@@ -231,7 +263,10 @@ def run(ctx):
                 'directed corpus first, then random histories (styles plain/ties/coalesce/reinserting/empty/mixed; '
                 'times dyadic, some offset by multiples of 2^-22 to exercise the 1e-6 coalescing; callbacks schedule '
                 'children or re-insert themselves). Every evolve_until is compared line by line (status, clock, counter, '
-                'integrate/fire trace, remaining queue) with the Lean model, and the property clauses are evaluated '
+                'integrate/fire trace, remaining queue) with the Lean model, the whole-history summary (time evolved to, '
+                'clock, #created, #executed, #pending, executed sequence over all evolutions and whether it is in order) '
+                'is compared with the model\'s `Hist` (the object of the history theorems), and the property clauses '
+                '(including order across evolve_until calls when no add was before the time already evolved to) are evaluated '
                 'directly on the observations. Non-trivial = at least one callback fired or several evolutions; '
                 'distinct by (style, #ops, #fired, coalescing seen, statuses).')
     ctx.assumptions += ['heapq pops the least (time, counter) tuple', 'float arithmetic on the generated dyadic times is exact']
@@ -247,10 +282,12 @@ def run(ctx):
         lines, idx = model_lines(ops)
         base = len(all_lines)
         all_lines += lines
-        index.append([base + i for i in idx])
+        index.append([base + i for i in idx] + [base + len(lines) - 1])
         observations.append((style, ops, obs))
     out = ctx.model(all_lines)
     for (style, ops, obs), idx in zip(observations, index):
+        ihist = idx.pop()
+        agree = True
         for o, i in zip(obs, idx):
             ctx.traces_validated += 1
             if out[i].startswith('fuel'):
@@ -258,7 +295,17 @@ def run(ctx):
             if real_line(o) != out[i]:
                 ctx.disagree('C20 evolve', {'ops': ops, 'T': o['T'], 'impl': real_line(o), 'model': out[i]},
                              key=('raises-index-empty-queue' if o['status'] == 'index' else None))
+                agree = False
                 break
+        # whole-history summary: time evolved to, clock, #created, #executed, #pending, global order
+        if agree and obs and all(o['status'] in ('ok', 'value') for o in obs):
+            ctx.traces_validated += 1
+            ctx.count('history_summaries_compared')
+            if obs[-1]['adds_after_horizon']:
+                ctx.count('histories_with_adds_after_horizon')
+            rl = real_hist_line(obs, ops)
+            if rl != out[ihist]:
+                ctx.disagree('C20 hist', {'ops': ops, 'impl': rl, 'model': out[ihist]})
 
 
 def replay(ctx, case):
